@@ -820,7 +820,13 @@ func (m *Machine) call(e *N, sc *Scope) Value {
 				break
 			}
 			if c != ctlNone {
-				m.unspec("break/continue crossing a function boundary")
+				// a break / continue that reaches the end of a function body without a loop around it:
+				// either it is refused (a runtime error at that statement) or the call simply ends and
+				// yields nil; the model follows the second reading and records the line so that the
+				// first is accepted too
+				m.res.AltErrorLines = append(m.res.AltErrorLines, m.ctlLine)
+				ret = nil
+				break
 			}
 		}
 		m.depth--
